@@ -140,7 +140,7 @@ CHECKS["C04"] = {
         {"pkg": "./pkg/vaa", "entry": "VerifC04_InjectiveLengths", "reach": ["different-lengths"],
          "shards": {"quick": ["a.plen=0..3;b.plen=0..3"], "thorough": [""]}},
         {"pkg": "./pkg/vaa", "entry": "VerifC04_Recompute", "reach": ["recomputed"],
-         "shards": {"quick": ["v.plen=1,2;v.nsig=0,1"], "thorough": ["v.plen=1,2,3,100"]}},
+         "shards": {"quick": ["v.plen=1,2;v.nsig=0,1"], "thorough": ["v.plen=1,2,3;v.nsig=0,1"]}},
         {"pkg": "./pkg/vaa", "entry": "VerifC04_WireDigest", "reach": ["end"]},
     ],
     "bounds": {"quick": {"recompute": "digest asked for, then one body field changed in place or in a by-value copy (8 fields, new value symbolic), digest asked for again; payload 1..2 bytes",
@@ -261,13 +261,13 @@ CHECKS["C13"] = {
         # the real Run loop as a goroutine fed through its channels (dispatch, set update, ticker, cancellation)
         {"pkg": "./pkg/processor", "entry": "VerifC13_RunLoop", "reach": ["end", "completed"], "opts": dict(_PROC_OPTS, clockfiles=_CLOCK + ",pkg/processor/processor.go"),
          "shards": {"quick": ["K=1,2"] + ["K=3;m.plen=0,1;ev#0=%d" % a for a in (0, 1, 3, 4, 5, 6, 7, 8)],
-                    "thorough": ["K=1,2"] + ["K=3;ev#0=%d" % a for a in (0, 1, 3, 4, 5, 6, 7, 8)] + ["K=4;m.plen=0,1;inj.plen=0;setsize=1,2;ev#0=0;ev#1=1;ev#2=%d" % a for a in (0, 1, 3, 4, 5, 6, 7, 8)]},
+                    "thorough": ["K=1,2"] + ["K=3;m.plen=0,1;ev#0=%d" % a for a in (0, 1, 3, 4, 5, 6, 7, 8)]},
          "timeout": {"quick": 2400, "thorough": 30000}},
     ],
     "bounds": {"quick": {"histories": "every sequence of K <= 3 events from the uninitialised processor over the 9-letter alphabet {set update (0..2 keys), chain message M (payload 0..1 bytes, all fields symbolic), delivery of the own loopback, adversarial observation (address/digest/signature each nil, empty, short, exact, long; contents symbolic), honest observation by member 1, inbound VAA of arbitrary bytes (9 lengths incl. nil), inbound well-formed VAA, injected VAA (payload 0..1), cleanup tick after an arbitrary clock advance}; for K = 3 the malformed-length combinations are reduced to four forms; plus selected K = 4 prefixes (set update, message, loopback, *; set update, injection, *, *; set update, message|observation, set update, *)",
                          "run loop": "the REAL Processor.Run as a goroutine: K <= 3 inputs over its channels (set update, chain message, adversarial / honest observation, inbound bytes / well-formed VAA, injection, the 30 s cleanup ticker fired by the harness), the own loopback consumed by Run itself, then cancellation; besides no-panic: every input is consumed, a set update is installed, an observed message is signed (and completes with a one-member set), Run returns on cancellation",
                          "unwind": 3000},
-               "thorough": {"histories": "all K <= 3; all K = 4 histories that start with a set update or an injection", "run loop": "K <= 3 with payload 0..2, K = 4 after set update + message"}},
+               "thorough": {"histories": "all K <= 3; all K = 4 histories that start with a set update or an injection", "run loop": "as quick"}},
     "outside": "histories longer than the bound; more than one distinct chain message; in the Run-loop entry inputs arrive one at a time (the loop's select never has two ready cases); guardian sets larger than 2; panics inside libp2p/badger/zap themselves; the notifier (nil in the harness, as in production without a Discord token)",
     "assumptions": CHECKS["C01"]["assumptions"] + ["clock: time.Now()/time.Since( in cleanup.go, broadcast.go, observation.go redirected mechanically to the harness clock (arbitrary non-decreasing instants); Duration.Minutes()/Hours() comparisons replaced by integer comparisons only after the equivalence was proved on the SSA-executed stdlib code"],
 }
@@ -348,7 +348,7 @@ CHECKS["C17"] = {
     "runs": [
         {"pkg": "./cmd/guardiand", "entry": "VerifC17_Dispatch", "reach": ["forwarded", "not-forwarded", "end"], "opts": {"z3": "z3-new"},
          "shards": {"quick": ["K=1,2", "K=3;advance#0=0", "K=3;advance#0=1", "K=3;advance#0=2", "K=3;advance#0=3"],
-                    "thorough": ["K=1,2,3"] + ["K=4;advance#0=%d;ev#0=%d;advance#1=%d" % (a, e, b) for a in (0, 1, 2, 3) for e in (0, 1) for b in (0, 1, 2, 3)]},
+                    "thorough": ["K=1,2,3"] + ["K=4;advance#0=%d;ev#0=%d;advance#1=%d" % (a, e, b) for a in (0, 1, 2) for e in (0, 1) for b in (0, 1, 2)] + ["K=4;advance#0=3;ev#0=1;advance#1=%d" % b for b in (0, 1, 2, 3)]},
          "timeout": {"quick": 2400, "thorough": 30000}},
         {"pkg": "./cmd/guardiand", "entry": "VerifC17_PostRace", "reach": ["end"], "opts": {"z3": "z3-new"}},
     ],
@@ -363,7 +363,7 @@ CHECKS["C20"] = {
     "runs": [
         {"pkg": "./cmd/spy", "entry": "VerifC20_Delivery", "reach": ["delivered", "filtered", "end", "send-failed"], "opts": {"z3": "z3-new"}, "allow_blocked": True,
          "shards": {"quick": ["nsub=1", "nsub=2;nvaa=1;nfilters#0=0", "nsub=2;nvaa=1;nfilters#0=1", "nsub=2;nvaa=1;nfilters#0=2", "nsub=2;nvaa=2;nfilters=0,1;stalledSub=9;failSub=9", "nsub=2;nvaa=2;nfilters=0,1;stalledSub=9;failSub=0,1", "nsub=2;nvaa=3;nfilters=0,1;stalledSub=9;v.chain=0;failSub=9", "nsub=2;nvaa=3;nfilters=0,1;stalledSub=9;v.chain=0;failSub=0,1", "nsub=2;nvaa=3;stalledSub=0;nfilters=0,1", "nsub=2;nvaa=3;stalledSub=1;nfilters=0,1"],
-                    "thorough": ["nsub=1", "nsub=2"] + ["nsub=3;nvaa=%d;stalledSub=%d;nfilters=0,1" % (v, st) for v in (1, 2) for st in (9, 0, 1, 2)]},
+                    "thorough": ["nsub=1", "nsub=2;failSub=9", "nsub=2;nvaa=2;nfilters=0,1;stalledSub=9;failSub=0,1", "nsub=2;nvaa=3;nfilters=0,1;stalledSub=9;v.chain=0;failSub=0,1"] + ["nsub=3;nvaa=%d;stalledSub=%d;nfilters=0,1;failSub=9" % (v, st) for v in (1, 2) for st in (9, 0, 1, 2)]},
          "timeout": {"quick": 2400, "thorough": 30000}},
     ],
     "bounds": {"quick": {"scenarios": "1..2 subscribers with 0..2 filters each (chain id and last address byte symbolic, filters may coincide; the first filter of the first subscriber may carry any 32-bit chain number outside 0..65535); 1..3 published VAAs with symbolic emitter chain and address byte; nobody or one subscriber stalled from the start (its Send never returns), or one subscriber whose connection is broken (its Send returns an error while its context is still live: the handler must return and the subscription be removed); afterwards a new subscription, its disconnect, and the disconnect of every draining subscriber",
